@@ -365,7 +365,7 @@ def check_program(prog: Dict[str, Any], stats: Optional[Dict[str, int]] = None) 
     if cross:
         bump("expect-reject")
         if res["ok"]:
-            V("page-rule", "near JP/CALL with a symbolic target", "near target on another 64 KiB page accepted",
+            V("page-rule", "near JP/CALL target", "near target on another 64 KiB page accepted",
               f"statement {cross[0]} ({stmt_text(lines[cross[0]]['stmt'])}) at {lay['recs'][cross[0]]['addr']:#x}"
               f" targets another page but the program assembled")
         elif "not on current page" not in res["error"]:
@@ -377,7 +377,7 @@ def check_program(prog: Dict[str, Any], stats: Optional[Dict[str, int]] = None) 
         where = stmt_class(lines[line_of[n]].get("stmt")) if (n in line_of) else "program"
         sym = "rejected: " + norm_error(res["error"])
         if "not on current page" in res["error"]:
-            V("page-rule", "near JP/CALL with a symbolic target", "near target on the same 64 KiB page rejected", res["error"].splitlines()[0])
+            V("page-rule", "near JP/CALL target", "near target on the same 64 KiB page rejected", res["error"].splitlines()[0])
         else:
             kind = lines[line_of[n]]["stmt"]["t"] if (n in line_of and lines[line_of[n]].get("stmt")) else "program"
             V("accept", "instruction statement" if kind == "instr" else kind, sym,
